@@ -91,6 +91,7 @@ let bytes_cmd f () =
 let () =
   match Sys.argv with
   | [| _; "validate" |] -> Validate.validate_cmd ()
+  | [| _; "exec" |] -> Execval.exec_cmd ()
   | [| _; "load" |] -> load_cmd ()
   | [| _; "total" |] -> total_cmd ()
   | [| _; "hex" |] -> bytes_cmd hexdigest ()
